@@ -175,6 +175,13 @@ func (core *JApiCore) setCurrentDirective(keyword string, keywordCoords directiv
 		return core.japiError(fmt.Sprintf("unknown directive %q", keyword), keywordCoords.Begin())
 	}
 
+	// A banned kind is refused where it is written - in the root file, in an included
+	// file or in the body of a macro, pasted or not - before any of its parameters is
+	// looked at and before any other check can speak first.
+	if _, ok := core.bannedDirectives[de]; ok {
+		return core.japiError(fmt.Sprintf("%s (%s)", jerr.DirectiveNotAllowed, de.String()), keywordCoords.Begin())
+	}
+
 	d := directive.NewWithCallStack(de, keywordCoords, core.scannersStack.ToDirectiveIncludeTracer())
 	d.Keyword = keyword
 
